@@ -539,6 +539,11 @@ pub fn check_c14(obs: &Observation) -> V {
         }
     }
     // --- agent-sent commands
+    for t in &obs.targets {
+        if let Some(m) = &t.malformed {
+            add("as: the stream of agent-sent commands to a target is not a sequence of well formed frames".into(), format!("target {}: {}", t.key, m));
+        }
+    }
     let mut sent_by_target: BTreeMap<(String, String), Vec<(i32, bool)>> = BTreeMap::new();
     for (_, t) in obs.truth.iter() {
         if let Truth::Sent { node, lane, value, ow } = t {
